@@ -3,12 +3,20 @@
    sequence has its record's string of the declared length and its starred form is the reverse
    complement; every super-sequence and strand is the concatenation of its base sequences'
    values (reverse complemented where starred); every structure's string equals its record.
-   NOT proved: that for every assignment satisfying the arrays the chain
-   process_results -> .mfe -> read_design -> apply_design succeeds; that is exercised end to end
-   (in-process and through the three command-line tools) with random assignments and checked
-   against the source denotation by the correspondence. *)
+   Designer side (C06_designed_string_flows, both layouts): for every designed string that satisfies
+   the equality / complement arrays, process_results succeeds - no sequence is ever "designed with 2
+   different sequences", whatever the nesting of super-sequences and the order of the strands - and
+   the records written to the .mfe file are consistent: every sequence and its complement have
+   records of the declared length that are reverse complements of one another, every strand is what
+   was read at its positions and, nucleotide by nucleotide, the record of the base sequence it
+   flattens to (complemented where starred), every structure's record joins its strands.  The model
+   design_results is tied to Convert.process_results / Convert.output by the correspondence.
+   NOT proved: the composition of the two sides through the compiler's emission (the records of
+   the PIL names are the records finish looks up under the component's prefixed names); that is
+   exercised end to end (in-process and through the three command-line tools). *)
 From Coq Require Import List String Ascii Arith Bool.
-From PC Require Import Base.Codes Comp.Syntax Comp.Compile Sys.System Finish.Apply Finish.ApplyProofs.
+From PC Require Import Base.Codes Comp.Syntax Comp.Compile Sys.System Finish.Apply Finish.ApplyProofs
+  Design.Designer Design.TemplateProofs Design.DGraph Design.DenoteGraph Design.DenoteTie Design.DenoteSat Design.Results Design.ResultsProofs.
 Import ListNotations.
 
 Theorem C06_finished_bases_consistent_partial : forall t prefix bs vals, base_values t prefix bs = OK vals ->
@@ -42,3 +50,34 @@ Theorem C06_finish_succeeds_on_consistent_records : forall t c,
   exists f, apply_comp t c = OK f.
 Proof. exact apply_comp_complete. Qed.
 Print Assumptions C06_finish_succeeds_on_consistent_records.
+
+(* designer side: a designed string that fits the arrays flows into consistent records *)
+Theorem C06_designed_string_flows : forall (p : pspec) (lay : layout) (so : bool) (g : cgraph) (nts : list ascii),
+  seed p so = OK (lay, g) -> spec_okb p so = true -> dgraph_ok p lay so = true -> same_graph p lay so g = true ->
+  graph_ok g = true -> place_okb p lay so = true ->
+  forall (e w : list (option nat)) (s : list (option ascii)), get_constraints p so = DOk e w s -> fits nts e w ->
+  exists (a : results) (recs : list (string * list ascii)),
+    process_results p lay nts = OK a /\ output_records p a = OK recs /\
+    (forall k n t, nth_error (p_bases p) k = Some (n, t) ->
+       exists v wv, In (n, v) recs /\ In ((n ++ "*")%string, wv) recs /\ wc_codes v = Some wv /\ List.length v = List.length t) /\
+    (forall n items l d, In (n, (items, l, d)) (p_strands p) ->
+       exists vs, afind (r_strands a) n = Some vs /\ read_positions nts (tstart_of lay n) l = OK vs /\
+         forall o c par, o < l -> nth o (flat_map (ref_c p (ctbl p)) items) (DAux 0 0, false) = (c, par) ->
+           exists k i bn t v b, c = DAux (2 * k) i /\ nth_error (p_bases p) k = Some (bn, t) /\ In (bn, v) recs /\
+                                nth_error v i = Some (base_char b) /\ nth_error vs o = Some (base_char (app_par par b))) /\
+    (forall sn names sy len, In (sn, (names, sy, len)) (p_structs p) ->
+       In (sn, join_plus (map (fun n => match afind (r_strands a) n with Some v => v | None => [] end) names)) recs).
+Proof. exact design_results_ok. Qed.
+Print Assumptions C06_designed_string_flows.
+
+(* the hypotheses are met, in both layouts, by a concrete document and designed string *)
+Theorem C06_designed_string_nonvacuous : forall so, exists lay g e w s, seed demo_spec so = OK (lay, g) /\ spec_okb demo_spec so = true /\
+  dgraph_ok demo_spec lay so = true /\ same_graph demo_spec lay so g = true /\ graph_ok g = true /\ place_okb demo_spec lay so = true /\
+  get_constraints demo_spec so = DOk e w s /\ fits (demo_nts so) e w.
+Proof. exact demo_results_hypotheses. Qed.
+Print Assumptions C06_designed_string_nonvacuous.
+
+(* the executable form of `fits` is sound *)
+Theorem C06_fits_check_sound : forall nts e w, fitsb nts e w = true -> fits nts e w.
+Proof. exact fitsb_fits. Qed.
+Print Assumptions C06_fits_check_sound.
